@@ -16,7 +16,7 @@ RULE = ("phys: integer type x factor {1,2,10,0.1,0.001,0.5,-1,-0.25,3,1/3,2.5e-7
         "[lo,hi) within 32 bits (528) x spelling {int, ascending list, descending list, tuple, slice lo:hi, slice lo:hi:1, "
         "defined name} x field value {0,1,max,alternating} x base raw {0, all ones, A5A5A5A5}; each on an SDO and a PDO "
         "variable. non-trivial = distinct (view, parameters) cases with a non-unit factor, a multi-entry table or a range "
-        "wider than one bit")
+        "wider than one bit; slices with an open lower / upper end on 8..64-bit variables")
 ASSUMPTIONS = [
     "nearest integer: either neighbour accepted at (numerically) exact ties of value/factor",
     "requested physical values are generated so that the nearest raw value lies in the type's range",
